@@ -59,6 +59,7 @@ func C04(c *Ctx) {
 	c.R.Rule("C04-R11", "E3", "a failed action is routed by the spec's settings alone: the exits on the failed-action path depend only on the action's result, ActionErrorBranches and ActionErrorNode", 2)
 	c.R.Rule("C04-R16", "E3", "every candidate the matcher found is offered to the guard", 1)
 	c04AllCandidates(c, "C04-R16")
+	c.shareRule("C13", "C13-R1", "C04-R20", "a branch pattern is matched in the form JSON gives it: what ParsePatterns stores is the canonicalised parser output, whatever the pattern looks like")
 	c.shareRule("C18", "C18-R10", "C04-R19", "the bindings the branches see, and the state that continues, are what the action or guard returned: the engine removes none of them")
 	c.R.Rule("C04-R17", "E3", "a guard's error ends the step", 1)
 	c04GuardErrorEnds(c, "C04-R17")
